@@ -1,3 +1,4 @@
+pub mod dispatch;
 pub mod network;
 pub mod powertrain;
 pub mod train;
